@@ -59,6 +59,10 @@ public:
    Chunk *GetOpeningParen(E_Scope scope = E_Scope::ALL) const;
    bool IsString(const char *str, bool caseSensitive = true) const;
    bool IsComment() const;
+   bool IsPreproc() const;
+   bool IsNewline() const;
+   size_t GetColumnIndent() const;
+   void SetColumnIndent(size_t col);
    bool IsParenOpen() const;
    bool IsParenClose() const;
    bool TestFlags(unsigned long flags) const;
